@@ -74,6 +74,8 @@ type Check struct {
 	// Enum, if set, yields the idx-th plan of a finite enumerated family (nil when exhausted).
 	Enum    func(tier string, idx int) *Plan
 	Oracle  func(v *View, vd *Verdict)
+	// Post, if set, may execute further plans derived from the run (differential oracles).
+	Post    func(t *testing.T, r *Result, vd *Verdict)
 	Quick   int // runs per quick check
 	Thorough int
 	Assumptions []string
@@ -203,6 +205,10 @@ func RunOne(t *testing.T, c *Check, p *Plan, idx int) (*RunOut, *Result) {
 	t0 := time.Now()
 	r := Execute(t, p)
 	vd, inc, _ := Evaluate(c, r)
+	if c.Post != nil {
+		c.Post(t, r, &vd)
+		vd.Violations = dedupe(vd.Violations)
+	}
 	o := &RunOut{Seed: p.Seed, Idx: idx, Family: p.Family, Verdict: vd, Incidental: inc, Canon: canonHash(r), Steps: r.Steps, Events: r.Events,
 		SimNs: r.SimNs, Faults: r.Faults, Probes: r.Probes, SitesHit: r.SitesHit, Switches: r.Switches, HistLen: len(r.Hist),
 		WallUs: time.Since(t0).Microseconds(), Bubble: r.BubbleErr, StepCap: r.StepCap}
